@@ -1,6 +1,11 @@
 import IpaVerif.Model.Util
 import IpaVerif.Model.PrimeField
 import IpaVerif.Generated.PrimeFields
+import IpaVerif.Model.Gf2k
+import IpaVerif.Generated.BinaryFields
+import IpaVerif.Model.BoolArray
+import IpaVerif.Generated.BoolArrays
+import IpaVerif.Generated.DzkpConstants
 /-! Line-protocol handlers for property C08 (model side). Import-free. -/
 namespace IpaVerif.Driver.C08
 open IpaVerif.Util IpaVerif.PrimeField
@@ -39,9 +44,149 @@ def pf (P : Params) (op : String) (args : List String) : Option String :=
   | "sum", [l] => do pure (toString ((← parseNatList l).foldl (add P) 0))
   | _, _ => none
 
+/-! ### binary fields `c08.gf <Type> <op> <args…>`
+
+Elements are canonical integers `< 2^BITS` in decimal. Arithmetic responses are
+`<as_u128> <hex of serialize>` so that the representation (padding included) is compared too. -/
+def gfByName (n : String) : Option Gf2k.Params :=
+  IpaVerif.Generated.binaryFields.find? (·.name == n)
+
+def gfElem (G : Gf2k.Params) (v : Nat) : String := s!"{v} {bytesHex (Gf2k.serialize G v)}"
+
+def gf (G : Gf2k.Params) (op : String) (args : List String) : Option String :=
+  match op, args with
+  | "add", [a, b] | "addassign", [a, b] => do pure (gfElem G (Gf2k.add G (← a.toNat?) (← b.toNat?)))
+  | "sub", [a, b] | "subassign", [a, b] => do pure (gfElem G (Gf2k.sub G (← a.toNat?) (← b.toNat?)))
+  | "neg", [a] => do pure (gfElem G (Gf2k.neg G (← a.toNat?)))
+  | "mul", [a, b] | "mulassign", [a, b] => do
+      match Gf2k.mul G (← a.toNat?) (← b.toNat?) with
+      | some r => pure (gfElem G r)
+      | none => pure "panic"
+  | "trunc", [v] => do pure (gfElem G (Gf2k.truncateFrom G (← v.toNat?)))
+  | "tryfrom", [v] => do pure (optNat (Gf2k.tryFrom G (← v.toNat?)))
+  | "deser", [h] => do pure (optNat (Gf2k.deserialize G (← parseHexBytes h)))
+  | "fromslice", [h] => do pure (optNat (Gf2k.fromSlice G (← parseHexBytes h)))
+  | "cmp", [a, b] => do pure (toString (Gf2k.cmp (← a.toNat?) (← b.toNat?)))
+  | _, _ => none
+
+/-! ### Boolean arrays `c08.ba <Type> <op> <args…>` and `c08.bool <op> <args…>`
+
+Array elements are the hex of the raw store (`serialize`), padding bits included. -/
+def baByName (n : String) : Option BoolArray.Params :=
+  IpaVerif.Generated.boolArrays.find? (·.name == n)
+
+def baElem (B : BoolArray.Params) (h : String) : Option Nat := do
+  let bs ← parseHexBytes h
+  if bs.length == B.storeBytes then pure (ofLeBytes bs) else none
+
+def baShow (B : BoolArray.Params) (v : Nat) : String := bytesHex (BoolArray.serialize B v)
+
+def parseBit (s : String) : Option Bool :=
+  if s == "1" then some true else if s == "0" then some false else none
+
+def parseBits (s : String) : Option (List Bool) :=
+  if s == "-" then some [] else s.toList.mapM (fun c => if c == '1' then some true else if c == '0' then some false else none)
+
+def showBits (bs : List Bool) : String := if bs.isEmpty then "-" else String.ofList (bs.map (fun b => if b then '1' else '0'))
+
+def optBa (B : BoolArray.Params) : Option Nat → String
+  | some v => s!"ok {baShow B v}"
+  | none => "err"
+
+def ba (B : BoolArray.Params) (op : String) (args : List String) : Option String :=
+  match op, args with
+  | "add", [a, b] | "addassign", [a, b] => do pure (baShow B (BoolArray.add B (← baElem B a) (← baElem B b)))
+  | "sub", [a, b] | "subassign", [a, b] => do pure (baShow B (BoolArray.sub B (← baElem B a) (← baElem B b)))
+  | "mul", [a, b] | "mulassign", [a, b] => do pure (baShow B (BoolArray.mul B (← baElem B a) (← baElem B b)))
+  | "neg", [a] => do pure (baShow B (BoolArray.neg B (← baElem B a)))
+  | "not", [a] => do pure (baShow B (BoolArray.not B (← baElem B a)))
+  | "mulbool", [a, c] => do pure (baShow B (BoolArray.mulBool B (← baElem B a) (← parseBit c)))
+  | "eq", [a, b] => do pure (boolStr ((← baElem B a) == (← baElem B b)))
+  | "deser", [h] => do pure (optBa B (BoolArray.deserialize B (← parseHexBytes h)))
+  | "get", [a, i] => do
+      match BoolArray.get B (← baElem B a) (← i.toNat?) with
+      | some b => pure s!"some {boolStr b}"
+      | none => pure "none"
+  | "set", [a, i, b] => do pure (baShow B (BoolArray.set B (← baElem B a) (← i.toNat?) (← parseBit b)))
+  | "expand", [b] => do pure (baShow B (BoolArray.expand B (← parseBit b)))
+  | "fromiter", [bs] => do
+      match BoolArray.fromIter B (← parseBits bs) with
+      | some v => pure (baShow B v)
+      | none => pure "panic:Expected iterator to produce"
+  | "tryfromvec", [bs] => do pure (optBa B (BoolArray.tryFromVec B (← parseBits bs)))
+  | "iter", [a] => do pure (showBits (BoolArray.toBits B (← baElem B a)))
+  | "togf32", [a] => do pure (showNatList (BoolArray.toGf32 B (← baElem B a)))
+  | "trunc", [v] => do if B.small then pure (baShow B (BoolArray.truncateFrom B (← v.toNat?))) else none
+  | "tryfrom", [v] => do if B.small then pure (optBa B (BoolArray.tryFrom B (← v.toNat?))) else none
+  | "asu128", [a] => do if B.small then pure (toString (BoolArray.asU128 B (← baElem B a))) else none
+  | "fromrandom", [ws] => do if B.small then none else pure (baShow B (BoolArray.fromRandom B (← parseNatList ws)))
+  | _, _ => none
+
+def optBool : Option Bool → String
+  | some b => s!"ok {boolStr b}"
+  | none => "err"
+
+def boolean (op : String) (args : List String) : Option String :=
+  match op, args with
+  | "add", [a, b] | "addassign", [a, b] => do pure (boolStr (BoolArray.Boolean.add (← parseBit a) (← parseBit b)))
+  | "sub", [a, b] | "subassign", [a, b] => do pure (boolStr (BoolArray.Boolean.sub (← parseBit a) (← parseBit b)))
+  | "mul", [a, b] | "mulassign", [a, b] => do pure (boolStr (BoolArray.Boolean.mul (← parseBit a) (← parseBit b)))
+  | "neg", [a] => do pure (boolStr (BoolArray.Boolean.neg (← parseBit a)))
+  | "not", [a] => do pure (boolStr (BoolArray.Boolean.not (← parseBit a)))
+  | "trunc", [v] => do pure (boolStr (BoolArray.Boolean.truncateFrom (← v.toNat?)))
+  | "tryfrom", [v] => do pure (optBool (BoolArray.Boolean.tryFrom (← v.toNat?)))
+  | "asu128", [a] => do pure (toString (BoolArray.Boolean.asU128 (← parseBit a)))
+  | "ser", [a] => do pure (bytesHex (BoolArray.Boolean.serialize (← parseBit a)))
+  | "deser", [h] => do pure (optBool (BoolArray.Boolean.deserialize (← parseHexBytes h)))
+  | _, _ => none
+
+/-! ### replicated shares `c08.share3 <Field> <op> s0 s1 s2 [t0 t1 t2 | c]` and DZKP constants `c08.const <NAME>`
+
+A 3-party replicated sharing is `s0 s1 s2`; helper `i` holds `(s_i, s_{i+1})`. The response lists the
+three helpers' result pairs `l0 r0 l1 r1 l2 r2` after the *local* operation. -/
+def share3 (P : Params) (op : String) (args : List String) : Option String := do
+  let ns ← args.mapM String.toNat?
+  let out (f : Nat → Nat) : String :=
+    String.intercalate " " ([0, 1, 2].map (fun i => s!"{f i} {f ((i + 1) % 3)}"))
+  match op, ns with
+  | "add", [s0, s1, s2, t0, t1, t2] =>
+      let s := [s0, s1, s2]; let t := [t0, t1, t2]
+      pure (out (fun i => add P (s.getD i 0) (t.getD i 0)))
+  | "sub", [s0, s1, s2, t0, t1, t2] =>
+      let s := [s0, s1, s2]; let t := [t0, t1, t2]
+      pure (out (fun i => sub P (s.getD i 0) (t.getD i 0)))
+  | "neg", [s0, s1, s2] =>
+      let s := [s0, s1, s2]
+      pure (out (fun i => neg P (s.getD i 0)))
+  | "mulconst", [s0, s1, s2, c] =>
+      let s := [s0, s1, s2]
+      pure (out (fun i => mul P (s.getD i 0) c))
+  | _, _ => none
+
+def dzkpConst (n : String) : Option Nat :=
+  match n with
+  | "INVERSE_OF_TWO" => some IpaVerif.Generated.dzkpInverseOfTwo
+  | "MINUS_ONE_HALF" => some IpaVerif.Generated.dzkpMinusOneHalf
+  | "MINUS_TWO" => some IpaVerif.Generated.dzkpMinusTwo
+  | _ => none
+
 /-- `some response` if the request belongs to this property, else `none`. -/
 def handle (toks : List String) : Option String :=
   match toks with
+  | "c08.share3" :: f :: op :: args =>
+      match fieldByName f with
+      | some P => some ((share3 P op args).getD "bad-request")
+      | none => some "bad-request"
+  | ["c08.const", n] => some (((dzkpConst n).map toString).getD "bad-request")
+  | "c08.ba" :: f :: op :: args =>
+      match baByName f with
+      | some B => some ((ba B op args).getD "bad-request")
+      | none => some "bad-request"
+  | "c08.bool" :: op :: args => some ((boolean op args).getD "bad-request")
+  | "c08.gf" :: f :: op :: args =>
+      match gfByName f with
+      | some G => some ((gf G op args).getD "bad-request")
+      | none => some "bad-request"
   | "c08.pf" :: f :: op :: args =>
       match fieldByName f with
       | some P => some ((pf P op args).getD "bad-request")
@@ -84,12 +229,195 @@ def pfOracle (P : Params) (op : String) (args : List String) (impl : String) : O
   | "ser", [a] => do pure (impl == bytesHex (leBytes (← a.toNat?) (P.storeBits / 8)))
   | _, _ => none
 
+/-! Spec side for the binary fields, written independently of the model of the code: schoolbook
+polynomial multiplication over GF(2) with `Nat.testBit`, then long division by `POLYNOMIAL` from the
+leading coefficient (degree via `Nat.log2`). -/
+def polyMul (a b : Nat) : Nat :=
+  (List.range (b.log2 + 1)).foldl (fun acc i => if b.testBit i then acc ^^^ (a * 2 ^ i) else acc) 0
+
+def polyMod (x m : Nat) : Nat → Nat
+  | 0 => x
+  | fuel + 1 => if m = 0 ∨ x = 0 ∨ x.log2 < m.log2 then x else polyMod (x ^^^ (m * 2 ^ (x.log2 - m.log2))) m fuel
+
+def polyMulMod (a b m : Nat) : Nat := polyMod (polyMul a b) m 400
+
+def parseGfElem (G : Gf2k.Params) (impl : String) : Option Nat :=
+  match impl.splitOn " " with
+  | [v, h] => do
+      let v ← v.toNat?
+      -- canonical: value below 2^BITS, store = little-endian bytes of the value (zero padding)
+      if v < 2 ^ G.bits && h == bytesHex (leBytes v G.storeBytes) then pure v else none
+  | _ => none
+
+def gfOracle (G : Gf2k.Params) (op : String) (args : List String) (impl : String) : Option String :=
+  let ok (b : Bool) (why : String) : Option String := some (if b then "holds" else "fails " ++ why)
+  match op, args with
+  | "add", [a, b] | "addassign", [a, b] | "sub", [a, b] | "subassign", [a, b] => do
+      let a ← a.toNat?
+      let b ← b.toNat?
+      match parseGfElem G impl with
+      | none => ok false "result is not a canonical element (value out of range or non-zero padding)"
+      | some r => ok (r == (a ^^^ b)) "sum/difference differs from the coefficient-wise sum over GF(2)"
+  | "neg", [a] => do
+      let a ← a.toNat?
+      match parseGfElem G impl with
+      | none => ok false "result is not a canonical element (value out of range or non-zero padding)"
+      | some r => ok ((r ^^^ a) == 0) "a + (-a) is not zero"
+  | "mul", [a, b] | "mulassign", [a, b] => do
+      let a ← a.toNat?
+      let b ← b.toNat?
+      match parseGfElem G impl with
+      | none => ok false "product is not a canonical element (panic, value out of range or non-zero padding)"
+      | some r =>
+        if r != polyMulMod a b G.poly then ok false "product differs from polynomial multiplication modulo POLYNOMIAL"
+        else if r == 0 && a != 0 && b != 0 then ok false "zero divisor: the product of two non-zero elements is zero, so POLYNOMIAL is reducible and the type is not a field"
+        else ok true ""
+  | "trunc", [v] => do
+      let v ← v.toNat?
+      match parseGfElem G impl with
+      | none => ok false "result is not a canonical element"
+      | some r => ok (r == v % 2 ^ G.bits) "truncate_from differs from v mod 2^BITS"
+  | "tryfrom", [v] => do
+      let v ← v.toNat?
+      ok (impl == (if v < 2 ^ G.bits then s!"ok {v}" else "err")) "try_from must accept exactly the values below 2^BITS"
+  | "deser", [h] => do
+      let bs ← parseHexBytes h
+      let v := ofLeBytes bs
+      ok (impl == (if bs.length == G.storeBytes && v < 2 ^ G.bits then s!"ok {v}" else "err")) "deserialize must accept exactly the canonical encodings"
+  | "cmp", [a, b] => do
+      let a ← a.toNat?
+      let b ← b.toNat?
+      ok (impl == (if a < b then "0" else if a == b then "1" else "2")) "ordering differs from the integer ordering"
+  | "fromslice", [h] => do
+      let bs ← parseHexBytes h
+      let v := ofLeBytes bs
+      if impl == "err" then ok (bs.length * 8 > G.bits || v ≥ 2 ^ G.bits || bs.length > G.bits / 8) "a slice that fits the element was rejected"
+      else ok (impl == s!"ok {v}" && v < 2 ^ G.bits) "TryFrom<&[u8]> produced a non-canonical element (bits beyond BITS set) or a wrong value"
+  | _, _ => none
+
+/-! Spec side for Boolean arrays: an array is the vector of its `BITS` bits (a number below `2^BITS`);
+a response is acceptable only if its store is that number with **zero padding**. -/
+def baCanon (B : BoolArray.Params) (h : String) : Option Nat := do
+  let bs ← parseHexBytes h
+  let v := ofLeBytes bs
+  if bs.length == B.storeBytes && v < 2 ^ B.bits then pure v else none
+
+def baOracle (B : BoolArray.Params) (op : String) (args : List String) (impl : String) : Option String :=
+  let ok (b : Bool) (why : String) : Option String := some (if b then "holds" else "fails " ++ why)
+  let elemIs (want : Nat) (why : String) : Option String :=
+    match baCanon B impl with
+    | none => ok false "result is not canonical: padding bits of the store are set (it compares unequal to the same value built otherwise, leaks through as_u128 and is rejected by deserialize)"
+    | some r => ok (r == want) why
+  let n := 2 ^ B.bits
+  match op, args with
+  | "add", [a, b] | "addassign", [a, b] | "sub", [a, b] | "subassign", [a, b] => do
+      elemIs ((← baCanon B a) ^^^ (← baCanon B b)) "sum differs from the bitwise sum over GF(2)"
+  | "mul", [a, b] | "mulassign", [a, b] => do
+      elemIs ((← baCanon B a) &&& (← baCanon B b)) "product differs from the bitwise product"
+  | "neg", [a] => do elemIs (← baCanon B a) "negation must be the identity in characteristic 2"
+  | "not", [a] => do elemIs (n - 1 - (← baCanon B a)) "complement differs from flipping exactly the BITS bits"
+  | "mulbool", [a, c] => do
+      let c ← parseBit c
+      let a ← baCanon B a
+      elemIs (if c then a else 0) "scalar multiple differs"
+  | "eq", [a, b] => do ok (impl == boolStr ((← baCanon B a) == (← baCanon B b))) "equality differs from equality of values"
+  | "deser", [h] => do
+      let bs ← parseHexBytes h
+      let v := ofLeBytes bs
+      ok (impl == (if bs.length == B.storeBytes && v < n then s!"ok {h}" else "err")) "deserialize must accept exactly the canonical encodings"
+  | "set", [a, i, b] => do
+      let a ← baCanon B a
+      let i ← i.toNat?
+      let b ← parseBit b
+      elemIs (a - (a / 2 ^ i % 2) * 2 ^ i + (if b then 2 ^ i else 0)) "set changed something other than bit i"
+  | "expand", [b] => do
+      let b ← parseBit b
+      elemIs (if b then n - 1 else 0) "expand differs"
+  | "trunc", [v] => do elemIs ((← v.toNat?) % n) "truncate_from differs from v mod 2^BITS"
+  | "tryfrom", [v] => do
+      let v ← v.toNat?
+      ok (impl == (if v < n then s!"ok {bytesHex (leBytes v B.storeBytes)}" else "err")) "try_from must accept exactly the values below 2^BITS"
+  | "asu128", [a] => do ok (impl == toString (← baCanon B a)) "as_u128 differs from the value of the BITS bits"
+  | "fromrandom", [_] => do
+      match parseHexBytes impl with
+      | some bs => ok (bs.length == B.storeBytes && ofLeBytes bs < n) "from_random produced a non-canonical element"
+      | none => none
+  | _, _ => none
+
+def boolOracle (op : String) (args : List String) (impl : String) : Option String :=
+  let ok (b : Bool) (why : String) : Option String := some (if b then "holds" else "fails " ++ why)
+  let v (s : String) : Option Nat := (parseBit s).map (fun b => if b then 1 else 0)
+  match op, args with
+  | "add", [a, b] | "addassign", [a, b] | "sub", [a, b] | "subassign", [a, b] => do
+      ok (impl == toString (((← v a) + (← v b)) % 2)) "differs from arithmetic modulo 2"
+  | "mul", [a, b] | "mulassign", [a, b] => do ok (impl == toString (((← v a) * (← v b)) % 2)) "differs from arithmetic modulo 2"
+  | "neg", [a] => do ok (impl == toString ((2 - (← v a)) % 2)) "differs from arithmetic modulo 2"
+  | "not", [a] => do ok (impl == toString (1 - (← v a))) "differs from the complement"
+  | "trunc", [x] => do ok (impl == toString ((← x.toNat?) % 2)) "truncate_from differs from v mod 2"
+  | "tryfrom", [x] => do
+      let x ← x.toNat?
+      ok (impl == (if x < 2 then s!"ok {x}" else "err")) "try_from must accept exactly 0 and 1"
+  | "deser", [h] => do
+      let bs ← parseHexBytes h
+      ok (impl == (match bs with | [b] => if b < 2 then s!"ok {b}" else "err" | _ => "err")) "deserialize must accept exactly the bytes 00 and 01"
+  | _, _ => none
+
+/-- spec side for shares: the results are a consistent sharing of `op` applied to the secrets. -/
+def share3Oracle (P : Params) (op : String) (args : List String) (impl : String) : Option String := do
+  let p := P.p
+  let ns ← args.mapM String.toNat?
+  let rs ← (impl.splitOn " ").mapM String.toNat?
+  match rs with
+  | [l0, r0, l1, r1, l2, r2] =>
+      if !(r0 == l1 && r1 == l2 && r2 == l0) then pure "fails the three helpers' results are not a consistent replicated sharing" else
+      if !(l0 < p && l1 < p && l2 < p) then pure "fails a share is not a canonical field element" else
+      let got := (l0 + l1 + l2) % p
+      let want ← match op, ns with
+        | "add", [s0, s1, s2, t0, t1, t2] => some ((s0 + s1 + s2 + (t0 + t1 + t2)) % p)
+        | "sub", [s0, s1, s2, t0, t1, t2] => some ((s0 + s1 + s2 + 3 * p - (t0 + t1 + t2)) % p)
+        | "neg", [s0, s1, s2] => some ((3 * p - (s0 + s1 + s2)) % p)
+        | "mulconst", [s0, s1, s2, c] => some (((s0 + s1 + s2) * c) % p)
+        | _, _ => none
+      pure (if got == want then "holds" else "fails the local operation on shares does not commute with reconstruction")
+  | _ => pure "fails malformed result"
+
+def constOracle (n : String) (impl : String) : Option String := do
+  let p := IpaVerif.Generated.fp61.p
+  let v ← impl.toNat?
+  if v ≥ p then pure "fails constant is not canonical" else
+  match n with
+  | "INVERSE_OF_TWO" => pure (if (2 * v) % p == 1 then "holds" else "fails 2 * INVERSE_OF_TWO != 1")
+  | "MINUS_ONE_HALF" => pure (if (2 * v + 1) % p == 0 then "holds" else "fails 2 * MINUS_ONE_HALF + 1 != 0")
+  | "MINUS_TWO" => pure (if (v + 2) % p == 0 then "holds" else "fails MINUS_TWO + 2 != 0")
+  | _ => none
+
 /-- Property oracle on (request, implementation response). -/
 def oracle (toks : List String) (impl : String) : Option String :=
   match toks with
+  | "c08.share3" :: f :: op :: args =>
+      match fieldByName f with
+      | some P => some ((share3Oracle P op args impl).getD "unknown")
+      | none => some "unknown"
+  | ["c08.const", n] => some ((constOracle n impl).getD "unknown")
+  | "c08.ba" :: f :: op :: args =>
+      match baByName f with
+      | some B => some ((baOracle B op args impl).getD "unknown")
+      | none => some "unknown"
+  | "c08.bool" :: op :: args => some ((boolOracle op args impl).getD "unknown")
+  | "c08.gf" :: f :: op :: args =>
+      match gfByName f with
+      | some G => some ((gfOracle G op args impl).getD "unknown")
+      | none => some "unknown"
   | "c08.pf" :: f :: op :: args =>
       match fieldByName f with
       | some P =>
+        let mayPanic := match op, args with
+          | "inv", [a] => a.toNat? == some 0
+          | "batchinv", [l] => ((parseNatList l).getD []).any (· % P.p == 0) || l == "-"
+          | _, _ => false
+        if impl.startsWith "panic" && !mayPanic then
+          some "fails the operation panicked on canonical operands (overflow of the operation store / failed unwrap)"
+        else
         match pfOracle P op args impl with
         | some true => some "holds"
         | some false => some "fails result differs from arithmetic modulo PRIME (or is not the canonical representative)"
